@@ -57,9 +57,7 @@ def render(prog, tier):
     def ann(s):
         return f": {d[s][0]}" if d[s][0] else ""
 
-    params = ", ".join(f"{s}{ann(s)}" for s in ("x", "y") if s in d)
-    if "y" not in d:
-        params += ", y=5"
+    params = f"x{ann('x')}, " + (f"y{ann('y')} = 5" if "y" in d else "y=5")
     lines = [f"def f({params}):"]
     for s, src in (("a", "x"), ("b", "y")):
         if d[s][0]:
